@@ -225,14 +225,109 @@ def run(run):
                         {'pv': pv, 'before': prev[1][:8], 'now': t[:8],
                          'colliding_ids': dup})
                     break
-    run.extra['unsupported_versions_reported'] = unsupported_report[:50]
-    run.extra['supported_versions'] = len(supported)
     run.sample({'pv': 757, 'cb/play': {
         k.__name__: k.get_id(C.ConnectionContext(protocol_version=757))
         for k in sorted(clientbound.play.get_packets(
             C.ConnectionContext(protocol_version=757)),
             key=lambda k: k.__name__)}})
+    # ---- context objects with a history: reassigned, copied -------------------
+    # (Connection.connect() reassigns context.protocol_version; user code may
+    # copy a context to describe a second peer.  What a table says for a
+    # context depends on its current version only.)
+    import copy
+
+    def table_for(ctx, get_packets):
+        out = []
+        for k in get_packets(ctx):
+            try:
+                out.append((k.__module__ + '.' + k.__qualname__,
+                            k.get_id(ctx)))
+            except Exception as e:
+                out.append((k.__qualname__, repr(e)))
+        return sorted(out, key=repr)
+
+    def judge_ctx(ctx, pv, how):
+        for direction, state, get_packets in tables:
+            try:
+                t = table_for(ctx, get_packets)
+            except Exception as e:
+                t = [('raised', repr(e))]
+            run.count('context_history_table_reads')
+            want = seen_tables[(pv, direction, state)][1]
+            if t != want:
+                run.violation(
+                    'table/context-history/%s' % how,
+                    'the packet table read through a context object with a '
+                    'history (%s) differs from the one a fresh context of the '
+                    'same version gives' % how,
+                    {'pv': pv, 'table': '%s/%s' % (direction, state),
+                     'fresh': want[:6], 'now': t[:6]})
+                return False
+        return True
+    reused = C.ConnectionContext(protocol_version=supported[0])
+    judge_ctx(reused, supported[0], 'reassigned')
+    for pv in rng.sample(supported, 12):
+        reused.protocol_version = pv
+        if not judge_ctx(reused, pv, 'reassigned'):
+            break
+    for copier, how in ((copy.copy, 'copied'), (copy.deepcopy, 'deep-copied')):
+        for pva, pvb in [rng.sample(supported, 2) for _ in range(8)] + \
+                [(supported[0], supported[-1]), (supported[-1], supported[0])]:
+            orig = C.ConnectionContext(protocol_version=pva)
+            # (the original is queried before the copy is taken, so whatever it
+            # remembers is there to be shared)
+            ok = judge_ctx(orig, pva, 'fresh')
+            twin = copier(orig)
+            twin.protocol_version = pvb
+            ok = ok and judge_ctx(twin, pvb, how) and \
+                judge_ctx(orig, pva, 'original-after-copy-changed') and \
+                judge_ctx(twin, pvb, how)
+            if not ok:
+                break
+
+    # ---- user code in the process: subclasses of library packet classes ------
+    # (a program may subclass any packet class for its own purposes, e.g. to
+    # add helpers; merely defining the subclass must not register it)
+    every = set()
+    for pv in supported:
+        ctx = C.ConnectionContext(protocol_version=pv)
+        for _d, _s, get_packets in tables:
+            every |= set(get_packets(ctx))
+    bases = set(every)
+    for k in every:
+        for b in k.__mro__[1:]:
+            if b.__module__.startswith('minecraft.') and b is not object:
+                bases.add(b)
+    user_classes = []
+    for k in sorted(bases, key=lambda k: (k.__module__, k.__qualname__)):
+        try:
+            user_classes.append(type('User' + k.__name__, (k,),
+                                     {'__module__': 'user_program'}))
+        except Exception as e:
+            run.extra.setdefault('unsubclassable', []).append(
+                '%s: %r' % (k.__qualname__, e))
+    run.count('user_subclasses_defined', len(user_classes))
+    bad = None
+    for pv in supported:
+        for direction, state, get_packets in tables:
+            t = table_of(pv, get_packets)
+            run.count('tables_read_after_user_subclasses')
+            want = seen_tables[(pv, direction, state)][1]
+            if t != want and bad is None:
+                bad = {'pv': pv, 'table': '%s/%s' % (direction, state),
+                       'appeared': [n for n in t if n not in want][:6],
+                       'vanished': [n for n in want if n not in t][:6]}
+    if bad:
+        run.violation('table/user-subclass-registered', 'defining a subclass '
+                      'of a library packet class in the user program changed '
+                      'a packet table', bad)
+    del user_classes[:]
+    run.extra['unsupported_versions_reported'] = unsupported_report[:50]
+    run.extra['supported_versions'] = len(supported)
     run.require('ids_checked', 5000)
     run.require('reactor_dicts_inspected', 1000)
     run.require('history_table_reads', 5000)
+    run.require('context_history_table_reads', 200)
+    run.require('user_subclasses_defined', 50)
+    run.require('tables_read_after_user_subclasses', 500)
     run.require('concurrent_reactor_builds', 100)
